@@ -126,7 +126,7 @@ def run(chk):
     realv = []
     for i in gen_idx:
         f = real[i].split("\t")
-        realv.append("\t".join([f[3], f[4], f[12]]))
+        realv.append("\t".join([f[3], f[4], f[12], f[5], f[6]]))
     core.diff_streams(chk, "expr_gen", gen_reqs, realv, model)
 
     # (3) oracle: generated code vs reference evaluation of the intended tree, under V8
